@@ -146,6 +146,9 @@ func SetMethodT(
 			MakeUnknown(),
 		)
 
+		// (the definition itself is still a method the editor can jump to)
+		appendSignature(frame, targetClass, methodT, false, isPrivate, fileName, row)
+
 		return
 	}
 
